@@ -65,7 +65,7 @@ def topicMatches (topic filter : String) : Bool := Topic.matchesImpl topic.toLis
 
 /-- is `a` a permutation of `b` (as lists of Nat without duplicates expected) -/
 def sameMembers [DecidableEq α] (a b : List α) : Bool :=
-  a.length == b.length && a.all (fun x => a.count x == b.count x)
+  a.all (fun x => a.count x == b.count x) && b.all (fun x => a.count x == b.count x)
 
 /-! ### link-side buffers -/
 
@@ -351,8 +351,8 @@ def BrokerAliases.new (max : Nat) : BrokerAliases :=
 
 /-- restore cursors of the saved tracker from the retransmission map -/
 def rewindRequests (sh : List (String × SharedGroup)) (retx : List (Nat × Cursor)) :
-    List DataRequest → List DataRequest → M (List (String × SharedGroup) × List DataRequest)
-  | [], acc => .ok (sh, acc)
+    List DataRequest → List DataRequest → List (String × SharedGroup) × List DataRequest
+  | [], acc => (sh, acc)
   | r :: rest, acc =>
     match nlookup r.filterIdx retx with
     | none => rewindRequests sh retx rest (acc ++ [r])
@@ -383,14 +383,12 @@ def handleDisconnection (s : RState) (id : Nat) (reason : Option String) : M RSt
       if c.subscriptions.contains p.1 then (p.1, p.2.filter (· ≠ id)) else p)
     let s := { s with subscriptionMap := smap }
     if !c.clean then
-      match rewindRequests s.shared retx (c.tracker.requests ++ inflightReqs) [] with
-      | .error e => .error e
-      | .ok (sh, reqs) =>
-        let t : Tracker := { c.tracker with requests := reqs, status := .paused .busy }
-        .ok { s with shared := sh,
-                     graveyard := ainsert c.clientId
-                       (some { tracker := t, subscriptions := c.subscriptions,
-                               unackedPubrels := c.out.unackedPubrels }) s.graveyard }
+      let (sh, reqs) := rewindRequests s.shared retx (c.tracker.requests ++ inflightReqs) []
+      let t : Tracker := { c.tracker with requests := reqs, status := .paused .busy }
+      .ok { s with shared := sh,
+                   graveyard := ainsert c.clientId
+                     (some { tracker := t, subscriptions := c.subscriptions,
+                             unackedPubrels := c.out.unackedPubrels }) s.graveyard }
     else
       .ok { s with graveyard := ainsert c.clientId none s.graveyard }
 
